@@ -109,6 +109,58 @@ def check_sequencing():
                     bad(f"{backend} {name}: {k} gives {np.round(v, 4).tolist()} but the concatenated program gives {np.round(ref, 4).tolist()}", fid)
 
 
+def check_handover_with_register_changes():
+    """C09: measured values cross a segment boundary by MODE (not by position) - the earlier segment deletes a lower-indexed
+    mode before / after measuring, the later segment feeds the outcome forward; one call, two calls and the concatenated
+    program agree with the closed form <x> = selected outcome"""
+    variants = {
+        "Del q0 then measure q1, feed q2": (lambda q: (ops.Del | q[0], ops.MeasureHomodyne(0.0, select=0.7) | q[1]), 1, 2),
+        "measure q1 then Del q0, feed q2": (lambda q: (ops.MeasureHomodyne(0.0, select=0.7) | q[1], ops.Del | q[0]), 1, 2),
+        "measure q2 and q1, Del q0, feed q1's outcome to q2": (lambda q: (ops.MeasureHomodyne(0.0, select=-0.4) | q[2], ops.MeasureHomodyne(0.0, select=0.7) | q[1], ops.Del | q[0]), 1, 2),
+        "Del q1, measure q2, feed q0": (lambda q: (ops.Del | q[1], ops.MeasureHomodyne(0.0, select=0.7) | q[2]), 2, 0),
+    }
+    for backend in ("gaussian", "fock"):
+        kw = {"cutoff_dim": 10} if backend == "fock" else {}
+        tol = 2e-2 if backend == "fock" else 1e-8
+        for label, (seg1, src, dst) in variants.items():
+            EVAL[0] += 1
+
+            def xmean(state, prog_last):
+                # position of mode dst among the live modes
+                live = [r.ind for r in prog_last.register]
+                return state.quad_expectation(live.index(dst), 0)[0]
+            res = {}
+            try:
+                p1 = sf.Program(3)
+                with p1.context as q:
+                    seg1(q)
+                p2 = sf.Program(p1)
+                with p2.context as q:
+                    ops.Xgate(p2.reg_refs[src].par) | p2.reg_refs[dst]
+                eng = sf.Engine(backend, backend_options=kw)
+                res["run([p1, p2])"] = xmean(eng.run([p1, p2]).state, p2)
+                p1 = sf.Program(3)
+                with p1.context as q:
+                    seg1(q)
+                p2 = sf.Program(p1)
+                with p2.context as q:
+                    ops.Xgate(p2.reg_refs[src].par) | p2.reg_refs[dst]
+                eng = sf.Engine(backend, backend_options=kw)
+                eng.run(p1)
+                res["run(p1); run(p2)"] = xmean(eng.run(p2).state, p2)
+                pc = sf.Program(3)
+                with pc.context as q:
+                    seg1(q)
+                    ops.Xgate(pc.reg_refs[src].par) | pc.reg_refs[dst]
+                res["run(p1 ++ p2)"] = xmean(sf.Engine(backend, backend_options=kw).run(pc).state, pc)
+            except Exception as e:
+                bad(f"{backend} [{label}]: raised {type(e).__name__}: {str(e)[:150]} (after {list(res)})")
+                continue
+            for k, v in res.items():
+                if abs(v - 0.7) > tol:
+                    bad(f"{backend} [{label}]: {k} gives <x> = {v:.4f} on the fed-forward mode, the selected outcome is 0.7")
+
+
 def check_untouched():
     for backend in ("gaussian", "fock", "bosonic"):
         kw = {"cutoff_dim": 10} if backend == "fock" else {}
@@ -275,8 +327,8 @@ def check_symbol_identity():
 
 if __name__ == "__main__":
     prop = sys.argv[3] if len(sys.argv) > 3 else "both"
-    fns = {"C09": (check_sequencing, check_untouched), "C10": (check_symbolic, check_measured_functions, check_symbol_identity)}.get(
-        prop, (check_sequencing, check_untouched, check_symbolic, check_measured_functions, check_symbol_identity))
+    fns = {"C09": (check_sequencing, check_handover_with_register_changes, check_untouched), "C10": (check_symbolic, check_measured_functions, check_symbol_identity)}.get(
+        prop, (check_sequencing, check_handover_with_register_changes, check_untouched, check_symbolic, check_measured_functions, check_symbol_identity))
     for f in fns:
         try:
             f()
